@@ -125,6 +125,8 @@ def make_jobs(items, want, N, settings=None, timeout=150, extra=None):
             if k in it:
                 j[k] = it[k]
         j["want"] += [w for w in it.get("want_extra", []) if w not in j["want"]]
+        if it.get("timeout"):
+            j["timeout"] = it["timeout"]
         jobs.append(j)
     return jobs
 
